@@ -15,7 +15,7 @@ ASSUMPTIONS = [
     "delivery order among endpoints is not constrained (multisets compared)",
 ]
 # enableBLOB is not a self-loop (it changes the policy): it is the structural event "enable"
-KINDS = [k for k in G.ALL_TAGS if G.KINDS[k].origin in ("client", "both") and k != "enableBLOB"]
+KINDS = [k for k in G.ALL_TAGS if G.KINDS[k].origin in ("client", "both")]
 NSH = 16
 
 
